@@ -46,7 +46,7 @@ def pooling_helper(ctx: Ctx):
     inner = repo.func(DOPS, "requests_exist_and_match_membership.exists_and_match_membership")
     sim, veh, reqs = outer.params[:3]
     ps = [p for p in flow.paths(outer.node) if p.kind == "return"]
-    ok = len(ps) == 1 and flow.dump(ps[0].value) == f"all(map(exists_and_match_membership, {reqs}))"
+    ok = flow.values_match(ps, f"all(map(exists_and_match_membership, {reqs}))")
     ctx.check(ok, "D1", "GD.MEM-helper", "requests_exist_and_match_membership = all(map(check, requests))", outer,
               why_bad=f"returns {flow.dump(ps[0].value)[:100] if ps else '?'}", construct="requests_exist:all-map")
     rid = inner.params[0]
@@ -147,8 +147,11 @@ def dispatcher(ctx: Ctx):
             d = flow.dump(a)
             if pol is True and d == f"{r}.membership.grant_access_to_membership_id({mid})":
                 ok = True
-            if pol is True and d == f"{r}.membership.grant_access_to_membership_id({mid}) if {mid} is not None else True":
-                ok = True
+            if pol is True and isinstance(a, ast.IfExp):
+                # a conditional on "is a fleet being solved": with a fleet it must come down to the membership test
+                some_fleet = [(ast.parse(f"{mid} is None", mode="eval").body, False), (ast.parse(f"{mid} is not None", mode="eval").body, True)]
+                if flow.dump(flow.specialise(a, some_fleet)) == f"{r}.membership.grant_access_to_membership_id({mid})":
+                    ok = True
             if flow.is_syn(a, "$isnone") and pol is True and flow.dump(a.args[0]) == mid:
                 ok = True
         ctx.check(ok, "D2", "GD.fleet-filter", "_valid_request accepts only requests open to the fleet being solved (or no fleet)", rfn, p.end,
@@ -215,7 +218,7 @@ def station_search(ctx: Ctx):
         ctx.check(ok, "D2", "GD.station-search", "valid_station_for_vehicle accepts only stations that grant the vehicle access", fn, p.end,
                   why_bad=f"accepting path [{p.cond_text()[:200]}]", construct="valid_station_for_vehicle:MEM")
     ps = [p for p in flow.paths(outer.node) if p.kind == "return"]
-    ctx.check(len(ps) == 1 and flow.dump(ps[0].value) == "_inner", "D2", "GD.station-search", "valid_station_for_vehicle returns the closure", outer,
+    ctx.check(flow.values_match(ps, "_inner"), "D2", "GD.station-search", "valid_station_for_vehicle returns the closure", outer,
               why_bad="returns something else", construct="valid_station_for_vehicle:closure")
     fn = repo.func(IGO, "instruct_vehicles_to_dispatch_to_station")
     env_p = fn.params[4]
